@@ -247,6 +247,26 @@ def execute(case):
             check_item(k, i, "end")
     for mi in range(len(items["m"])):
         check_consts(mi, "end")
+    # bystanders: the items of OTHER DEX objects in the same process were never renamed either.  The pristine object
+    # parsed before the history is reloaded and a fresh object is parsed after it; both must still report the original names.
+    nren_any = any(op[0] == "rename" for op in case["ops"])
+    if nren_any:
+        for label, obj in (("object-parsed-before", items0), ("object-parsed-after", _load(raw)[1])):
+            for k in "cmf":
+                for i, it in enumerate(obj[k]):
+                    if label == "object-parsed-before":
+                        try:
+                            it.reload()
+                        except Exception as e:
+                            report(f"C17:exception:{type(e).__name__}:reload-bystander", f"{label}: reload raised {e}")
+                            continue
+                    got = str(it.get_name())
+                    log.add("end", "bystander", [label, k, i, got])
+                    if got != orig[k][i]:
+                        report(f"C17:leak:{classify_leak(got)}->other-dex-object",
+                               f"{label}: {KINDS[k]} #{i} of another DEX object (same bytes, never renamed) reports {got!r}, "
+                               f"original {orig[k][i]!r}")
+        probe("bystander-dex-objects-compared")
     nren = sum(1 for op in case["ops"] if op[0] == "rename")
     return {"problems": problems, "digest": log.digest(), "probes": probes, "units": len(case["ops"]),
             "nontrivial": bool(nren and sharing_observed[0]), "log": log.events,
@@ -278,7 +298,7 @@ def minimise(case, sig):
     def fails(ops):
         tests[0] += 1
         c = dict(case, ops=ops)
-        return sig in {s for s, _ in execute(c)["problems"]}
+        return sig in {s for s, _ in core.isolated(execute, c)["problems"]}
 
     ops = core.ddmin(case["ops"], fails, max_tests=300)
     # shrink arguments: shorter new names
@@ -292,7 +312,7 @@ def minimise(case, sig):
 
 
 def write_replay(case, sig, msg, info):
-    out = execute(case)
+    out = core.isolated(execute, case)
     sigs = {s: m for s, m in out["problems"]}
     if sig not in sigs:
         return None
